@@ -62,10 +62,14 @@ def pull_scripts(wd, quick, seed, cov):
     singles, _ = vf.gen_exhaustive("RegistryPull", cfg, wd)
     cfg = vf.write_cfg(wd, "Gen_RP2.cfg", {"U": 4, "MaxAttempts": 2, "MaxFaults": 2, "TrustSize": "TRUE", "CountOnly": "FALSE", "StaleMarkers": "TRUE", "Pre": '"none"'}, GEN)
     doubles, _ = vf.gen_simulate("RegistryPull", cfg, wd, num=60 if quick else 2500, depth=4, seed=seed)
+    if not quick:     # three faulty attempts (the stale-marker finding needs three attempts under two plans)
+        cfg = vf.write_cfg(wd, "Gen_RP3.cfg", {"U": 4, "MaxAttempts": 3, "MaxFaults": 2, "TrustSize": "TRUE", "CountOnly": "FALSE", "StaleMarkers": "TRUE", "Pre": '"none"'}, GEN)
+        triples, _ = vf.gen_simulate("RegistryPull", cfg, wd, num=2500, depth=5, seed=seed + 31)
+        doubles = doubles + triples
     singles, doubles = vf.dedupe(singles), vf.dedupe(doubles)
     rnd = random.Random(seed)
     rnd.shuffle(doubles)
-    pick = singles + doubles[:(40 if quick else 1500)]
+    pick = singles + doubles[:(40 if quick else 4000)]
     scripts = []
     for i, h in enumerate(pick):
         atts = []
